@@ -265,11 +265,25 @@ pub fn exec(op: &str, a: &[String]) -> Option<Reply> {
             let (rule, input) = build_rule(&items);
             let r = do_match(&rule, &aliases, &input);
             let mut f = r.split('\t');
-            Some(Reply::oracle(match (f.next(), f.next()) {
+            let mut obs = match (f.next(), f.next()) {
                 (Some("ok"), Some(v)) => vec!["ok".to_string(), v.to_string()],
                 (Some(x), _) => vec![x.split(':').next().unwrap_or("").to_string()],
                 _ => vec!["err".to_string()],
-            }))
+            };
+            // Rust core's case mapping of every non-ASCII sample (a primitive of the model: `Prims.lower/upper`)
+            if obs[0] == "ok" {
+                for it in &items {
+                    if let Item::Ph { sample, .. } = it {
+                        if !sample.is_ascii() {
+                            obs.push("L".to_string());
+                            obs.push(hx(sample));
+                            obs.push(hx(&sample.to_lowercase()));
+                            obs.push(hx(&sample.to_uppercase()));
+                        }
+                    }
+                }
+            }
+            Some(Reply::oracle(obs))
         }
         ("o.c32.anch", [items, aliases, input]) => {
             let (items, aliases, input) = (parse_items(items)?, parse_aliases(aliases)?, s_of_hex(input)?);
@@ -623,6 +637,8 @@ const OPATS: &[(&str, &[&str])] = &[
     ("[+-]?[0-9]+(?:\\.[0-9]+)?", &["1.5", "-2", "+0.25", "3.0", "99999999999999999999"]),
     ("(?:NaN|inf|-inf|[0-9]+)", &["NaN", "inf", "-inf", "5"]),
     ("[a-zA-Z]+", &["True", "FALSE", "x"]),
+    // non-ASCII letters: the case filters use Rust's full Unicode mapping (`str::to_lowercase`)
+    ("[^ ;,|:=]+", &["ÉCOLE", "Zürich", "ΑΒΓ", "straße", "İx", "abcÉ", "ǅ"]),
 ];
 const ODESTS: &[&str] = &["x", "y", "z", "a.b", "a.c", "k", "x", "x", "a"];
 
